@@ -167,40 +167,45 @@ theorem strict_auto_enabled_iff (cfg : Option Bool) (ps : List Policy) :
   | some b => cases b <;> simp [effectiveStrict]
 
 /-- Under strict checking a TLS request enters the handler chain iff its SNI and the host part
-    of its Host header (as the enforcement handler computes it) are the same name. -/
+    of its Host header (as the enforcement handler computes it) are equal for `strings.EqualFold`. -/
 theorem strict_421 (sites : List Bytes) (sni host : Bytes) :
-    serve true sites (some sni) host = .misdirected ↔ ¬ namesSameHost sni (enforcementHost host) := by
-  unfold serve namesSameHost
+    serve true sites (some sni) host = .misdirected ↔ ¬ foldSame sni (enforcementHost host) := by
+  unfold serve foldSame
   cases he : equalFold sni (enforcementHost host)
   · simp [he, (equalFold_false_iff _ _).mp he]
   · simp [he, (equalFold_iff _ _).mp he]
 
 /-- Letter case of the Host and an appended `:port` make no difference to the check. -/
 theorem strict_case_port_insensitive (sites : List Bytes) (sni name host port : Bytes)
-    (hplain : noSpecial host = true) (hport : noSpecial port = true) (hcase : lower host = lower name) :
-    (serve true sites (some sni) (host ++ cColon :: port) = .misdirected ↔ ¬ namesSameHost sni name) ∧
-    (serve true sites (some sni) host = .misdirected ↔ ¬ namesSameHost sni name) := by
+    (hplain : noSpecial host = true) (hport : noSpecial port = true) (hcase : foldKey host = foldKey name) :
+    (serve true sites (some sni) (host ++ cColon :: port) = .misdirected ↔ ¬ foldSame sni name) ∧
+    (serve true sites (some sni) host = .misdirected ↔ ¬ foldSame sni name) := by
   have e1 : enforcementHost (host ++ cColon :: port) = host := by
     simp [enforcementHost, splitHostPort_plain host port hplain hport]
   have e2 : enforcementHost host = host := by
     simp [enforcementHost, splitHostPort_noColon host (noSpecial_not_mem host hplain).1]
   rw [strict_421, strict_421, e1, e2]
-  unfold namesSameHost
+  unfold foldSame
   rw [hcase]
   exact ⟨Iff.rfl, Iff.rfl⟩
 
-/-- FULL STATEMENT — "under strict checking a TLS request is only ever routed to the handler of a
-    site whose name is the connection's SNI":
-      `∀ sites sni host k, serve true sites (some sni) host = .handler (some k) →
-         ∃ site, sites[k]? = some site ∧ namesSameHost sni site`
-    is FALSE for the code as written (`Witness.strict_binds_routing_host_full_fails`: SNI
-    `[secret.test]`, Host `[secret.test]`): the enforcement handler compares the SNI with the raw
-    Host when SplitHostPort fails, the host matcher additionally strips one `[` / `]`.
-    It holds outside that decidable region (and, below, for every bracket-free SNI): -/
+/-! ### D1. the routed site is EqualFold-equal to the SNI
+
+FULL STATEMENT — "under strict checking a TLS request is only ever routed to the handler of a
+site whose name is (EqualFold-)the connection's SNI":
+  `∀ sites sni host k, serve true sites (some sni) host = .handler (some k) →
+     ∃ site, sites[k]? = some site ∧ foldSame sni site`
+is FALSE for the code as written (`Witness.strict_binds_routing_host_full_fails`: SNI
+`[secret.test]`, Host `[secret.test]`): the enforcement handler compares the SNI with the raw
+Host when SplitHostPort fails, the host matcher additionally strips one `[` / `]`.  Such an SNI
+cannot establish a connection on the pinned tree (certmagic rejects it; checked with real
+handshakes), so this corner is latent.  It holds outside that decidable region, and for every
+bracket-free SNI: -/
+
 theorem strict_binds_routing_host_partial (sites : List Bytes) (sni host : Bytes) (k : Nat)
     (hx : bracketTrimmed host = false)
     (hs : serve true sites (some sni) host = .handler (some k)) :
-    ∃ site, sites[k]? = some site ∧ namesSameHost sni site := by
+    ∃ site, sites[k]? = some site ∧ foldSame sni site := by
   have hrh : routingHost host = enforcementHost host := by simpa [bracketTrimmed] using hx
   unfold serve at hs
   cases he : equalFold sni (enforcementHost host)
@@ -210,44 +215,19 @@ theorem strict_binds_routing_host_partial (sites : List Bytes) (sni host : Bytes
       simpa [route] using hs
     obtain ⟨_, site, h1, h2⟩ := routeFrom_some _ _ _ _ hr
     refine ⟨site, by simpa using h1, ?_⟩
-    unfold namesSameHost
+    unfold foldSame
     rw [(equalFold_iff _ _).mp he, ← hrh, (equalFold_iff _ _).mp h2]
 
 /-- same for the catch-all route: the host the request is routed by is the SNI -/
 theorem strict_binds_catch_all_partial (sites : List Bytes) (sni host : Bytes) (site : Option Nat)
     (hx : bracketTrimmed host = false)
     (hs : serve true sites (some sni) host = .handler site) :
-    namesSameHost sni (routingHost host) := by
+    foldSame sni (routingHost host) := by
   have hrh : routingHost host = enforcementHost host := by simpa [bracketTrimmed] using hx
   by_cases hm : serve true sites (some sni) host = .misdirected
   · rw [hm] at hs; cases hs
   · rw [strict_421] at hm
     rw [hrh]; exact Classical.not_not.mp hm
-
-/-- **no bypass.**  A server with a client-auth policy and no explicit `strict_sni_host`: whenever
-    a TLS request reaches a handler, the policy that first-match assigned to the connection (by
-    its SNI) is the very policy first-match assigns to the name the request is routed by — so a
-    site behind a client-auth policy cannot be reached over a connection negotiated under another
-    policy.  (ip matchers do not look at the name; a regexp matcher's verdict is assumed to be
-    the same for both spellings — they differ at most in ASCII case.) -/
-theorem client_auth_not_bypassed_partial (ps : List Policy) (sites : List Bytes) (sni host : Bytes)
-    (v : Nat → Bool) (site : Option Nat)
-    (hauth : ∃ p ∈ ps, p.clientAuth = true)
-    (hx : bracketTrimmed host = false)
-    (hs : serve (effectiveStrict none ps) sites (some sni) host = .handler site) :
-    choose false ps ⟨sni, v⟩ = choose false ps ⟨routingHost host, v⟩ := by
-  have hstrict : effectiveStrict none ps = true :=
-    (strict_auto_enabled_iff none ps).mpr (Or.inr ⟨rfl, hauth⟩)
-  rw [hstrict] at hs
-  have := strict_binds_catch_all_partial sites sni host site hx hs
-  rw [first_match_dead_index, first_match_dead_index]
-  exact firstMatchFrom_congr ⟨sni, v⟩ ⟨routingHost host, v⟩ ps 0 this rfl
-
-/-! ### … and the exclusion is discharged for every SNI a handshake can carry
-
-On the pinned tree a TLS connection whose SNI contains `[` or `]` cannot be established
-(certmagic's GetCertificate rejects the name; the harness checks this end to end with real
-handshakes).  For bracket-free SNIs the three `_partial` theorems hold without exclusion. -/
 
 /-- a bracket-free SNI that passes the strict check forces the Host out of the excluded region -/
 theorem strict_pass_not_bracketTrimmed (sites : List Bytes) (sni host : Bytes) (site : Option Nat)
@@ -264,34 +244,70 @@ theorem strict_pass_not_bracketTrimmed (sites : List Bytes) (sni host : Bytes) (
       have := noBrackets_of_fold sni host (Classical.not_not.mp hm) h2
       rw [hsni] at this; cases this
 
-/-- **strict SNI-Host binds the routed site to the SNI** (every SNI without brackets) -/
+/-- strict SNI-Host binds the routed site to the SNI up to EqualFold (every SNI without brackets) -/
 theorem strict_binds_routing_host (sites : List Bytes) (sni host : Bytes) (k : Nat)
     (hsni : noBrackets sni = true)
     (hs : serve true sites (some sni) host = .handler (some k)) :
-    ∃ site, sites[k]? = some site ∧ namesSameHost sni site :=
+    ∃ site, sites[k]? = some site ∧ foldSame sni site :=
   strict_binds_routing_host_partial sites sni host k
     (strict_pass_not_bracketTrimmed sites sni host _ hsni hs) hs
 
 theorem strict_binds_catch_all (sites : List Bytes) (sni host : Bytes) (site : Option Nat)
     (hsni : noBrackets sni = true)
     (hs : serve true sites (some sni) host = .handler site) :
-    namesSameHost sni (routingHost host) :=
+    foldSame sni (routingHost host) :=
   strict_binds_catch_all_partial sites sni host site
     (strict_pass_not_bracketTrimmed sites sni host _ hsni hs) hs
 
-/-- **no bypass** (every SNI without brackets) -/
-theorem client_auth_not_bypassed (ps : List Policy) (sites : List Bytes) (sni host : Bytes)
-    (v : Nat → Bool) (site : Option Nat)
+/-! ### D2. from "EqualFold-equal" to "same TLS policy"
+
+The TLS side (MatchServerName → certmagic.MatchWildcard) compares names after `strings.ToLower`;
+the HTTP side (strict check, host matcher) with `strings.EqualFold`.  The two differ on `ſ`
+(U+017F): `EqualFold("ſecret.test", "secret.test")` holds, the lower-cased strings differ.
+
+FULL STATEMENT — "… routed only to a site whose name selects the same connection policies as the SNI":
+  `∀ sites sni host k, noBrackets sni → serve true sites (some sni) host = .handler (some k) →
+     ∃ site, sites[k]? = some site ∧ namesSameHost sni site`
+and with it the no-bypass clause of the property are FALSE on the pinned tree
+(`Witness.strict_unicode_fold_full_fails`, `Witness.client_auth_not_bypassed_full_fails`:
+SNI `ſecret.test` does not match the client-auth policy `sni secret.test`, falls to the catch-all
+policy, and `Host: secret.test` then passes the strict check) — reproduced end to end with a real
+handshake (known finding `…:unicode-fold-sni`).  They hold for every ASCII SNI: -/
+
+theorem strict_binds_policy_name_partial (sites : List Bytes) (sni host : Bytes) (k : Nat)
+    (hsni : noBrackets sni = true) (hascii : isAscii sni = true)
+    (hsites : ∀ s ∈ sites, isAscii s = true)
+    (hs : serve true sites (some sni) host = .handler (some k)) :
+    ∃ site, sites[k]? = some site ∧ namesSameHost sni site := by
+  obtain ⟨site, h1, h2⟩ := strict_binds_routing_host sites sni host k hsni hs
+  refine ⟨site, h1, ?_⟩
+  have hm : site ∈ sites := List.mem_of_getElem? h1
+  unfold namesSameHost
+  unfold foldSame at h2
+  rw [← foldKey_ascii sni hascii, ← foldKey_ascii site (hsites site hm)]
+  exact h2
+
+/-- **no bypass** (every ASCII, bracket-free SNI).  A server with a client-auth policy and no
+    explicit `strict_sni_host`: whenever a TLS request is routed to the handler of a site, the
+    policy that first-match assigned to the connection (by its SNI) is the very policy first-match
+    assigns to that site's name — so a site behind a client-auth policy cannot be reached over a
+    connection negotiated under another policy.  (ip matchers do not look at the name; a regexp
+    matcher's verdict is assumed equal for the two spellings, which differ at most in ASCII case.) -/
+theorem client_auth_not_bypassed_partial (ps : List Policy) (sites : List Bytes) (sni host site : Bytes)
+    (v : Nat → Bool) (k : Nat)
     (hauth : ∃ p ∈ ps, p.clientAuth = true)
-    (hsni : noBrackets sni = true)
-    (hs : serve (effectiveStrict none ps) sites (some sni) host = .handler site) :
-    choose false ps ⟨sni, v⟩ = choose false ps ⟨routingHost host, v⟩ := by
+    (hsni : noBrackets sni = true) (hascii : isAscii sni = true)
+    (hsites : ∀ s ∈ sites, isAscii s = true)
+    (hs : serve (effectiveStrict none ps) sites (some sni) host = .handler (some k))
+    (hk : sites[k]? = some site) :
+    choose false ps ⟨sni, v⟩ = choose false ps ⟨site, v⟩ := by
   have hstrict : effectiveStrict none ps = true :=
     (strict_auto_enabled_iff none ps).mpr (Or.inr ⟨rfl, hauth⟩)
-  have hs' := hs
-  rw [hstrict] at hs'
-  exact client_auth_not_bypassed_partial ps sites sni host v site hauth
-    (strict_pass_not_bracketTrimmed sites sni host site hsni hs') hs
+  rw [hstrict] at hs
+  obtain ⟨site', h1, h2⟩ := strict_binds_policy_name_partial sites sni host k hsni hascii hsites hs
+  rw [hk] at h1; cases h1
+  rw [first_match_dead_index, first_match_dead_index]
+  exact firstMatchFrom_congr ⟨sni, v⟩ ⟨site, v⟩ ps 0 h2 rfl
 
 /-! ## non-vacuity: concrete, kernel-evaluated instances of the hypotheses -/
 
@@ -329,12 +345,16 @@ example : effectiveStrict none exPolicies = true ∧ effectiveStrict (some false
 -- SNI a.t, Host "B.T:443" → 421; Host "A.T:443" → site 0
 example : serve true [nA, nB] (some nA) (nB.map (· - 32) ++ cColon :: [52, 52, 51]) = .misdirected := by decide
 example : serve true [nA, nB] (some nA) (nAup ++ cColon :: [52, 52, 51]) = .handler (some 0) := by decide
-example : noSpecial nAup = true ∧ noSpecial [52, 52, 51] = true ∧ lower nAup = lower nA := by decide
+example : noSpecial nAup = true ∧ noSpecial [52, 52, 51] = true ∧ foldKey nAup = foldKey nA := by decide
 example : noBrackets nAup = true ∧ noBrackets [91, 97, 93] = false := by decide
 example : bracketTrimmed (nAup ++ cColon :: [52, 52, 51]) = false ∧ bracketTrimmed [91, 58, 58, 49, 93, 58, 56, 48] = false := by decide
 -- the no-bypass hypothesis set is inhabited
-example : (∃ p ∈ exPolicies, p.clientAuth = true) ∧
+example : (∃ p ∈ exPolicies, p.clientAuth = true) ∧ noBrackets nAup = true ∧ isAscii nAup = true ∧
+    (∀ s ∈ [nA], isAscii s = true) ∧
     serve (effectiveStrict none exPolicies) [nA] (some nAup) (nA ++ cColon :: [56, 48]) = .handler (some 0) := by
-  refine ⟨⟨_, List.mem_cons_of_mem _ (List.mem_cons_of_mem _ (List.mem_cons_self ..)), rfl⟩, by decide⟩
+  refine ⟨⟨_, List.mem_cons_of_mem _ (List.mem_cons_of_mem _ (List.mem_cons_self ..)), rfl⟩, by decide, by decide, by decide, by decide⟩
+-- the two equivalences: ſ.t is EqualFold-equal to s.t but does not lower to it; K.t lowers to k.t
+example : foldSame [128, 46, 116] [115, 46, 116] ∧ ¬ namesSameHost [128, 46, 116] [115, 46, 116] ∧
+    namesSameHost [129, 46, 116] [107, 46, 116] ∧ namesSameHost [130] [131] ∧ isAscii [128] = false := by decide
 
 end CaddyModel.C19
